@@ -64,12 +64,14 @@ TRet    == /\ Is("Ret") /\ Return(E.r) /\ E.tb      \* tb: a failure carries its
                       ELSE (W(CHOOSE i \in WIds : W(i).stage = E.path[1]).b = 1 => outcome[E.r].req = E.req)
               \/ E.k \in {"l", "x"} /\ outcome[E.r].a = E.a /\ outcome[E.r].b = E.b
            /\ Adv
+\* the caller puts the input into the tree's input queue: its ledger entry exists by then (D4)
+TInPut   == Is("InPut") /\ E.u \in DOMAIN ledger /\ Same /\ Adv
 TAbandon == Is("Abandon") /\ Abandon(E.r) /\ Adv
 TIdle   == /\ Is("Idle") /\ E.backlog = 0 /\ ledger = <<>> /\ (\A n \in QNames : qs[n] = <<>>)
            /\ (\A i \in WIds : hold[i] = <<>> /\ obx[i] = <<>> /\ scb[i] = <<>>) /\ Same /\ Adv
 TExit   == Is("Exit") /\ E.leftover = 0 /\ Same /\ Adv
 
-TraceNext == TSubmit \/ TQGet \/ TQPut \/ TWDone \/ TRet \/ TAbandon \/ TIdle \/ TExit
+TraceNext == TSubmit \/ TQGet \/ TQPut \/ TWDone \/ TRet \/ TInPut \/ TAbandon \/ TIdle \/ TExit
 TraceSpec == TraceInit /\ [][TraceNext]_tvars
 
 FailedInv == IF ~NoCrossTalk THEN "NoCrossTalk" ELSE IF ~NoMiss THEN "NoMiss" ELSE "none"
